@@ -132,9 +132,8 @@ Proof.
   destruct (Hbuf _ _ El) as (B1 & B2 & B3).
   rewrite maybe_free_ins.
   match goal with |- context [if all4 ?x then _ else _] => destruct (all4 x) eqn:E4 end.
-  - eapply rv_free; eauto; destruct (negb (rrx_closed c)); reflexivity.
-  - eapply rv_upd; eauto; try (destruct (negb (rrx_closed c)); reflexivity).
-    destruct (negb (rrx_closed c)); unfold used in *; prj; auto.
+  - eapply rv_free; eauto.
+  - eapply rv_upd; eauto.
 Qed.
 
 Lemma rv_flags n :
